@@ -80,6 +80,7 @@ package tree
 //@   requires t != nil && len(t.zeroHashes) == 33
 //@   ensures[proof-verifies] (err == nil && !hasUsedZeroHashes) ==> foldUp(desc(rhtL(t), rhtR(t), root, index, 0), siblings, index, 32) == root
 //@   ensures[missing-means-flag] (err == nil && !hasUsedZeroHashes) ==> rhtHas(t)[root]
+//@   ensures[never-the-syncers-inconsistency-error] plainErr(err)
 //@   ensures[flag-means-a-path-node-is-not-stored] (err == nil && hasUsedZeroHashes) ==> exists(h, 1, 33, !rhtHas(t)[desc(rhtL(t), rhtR(t), root, index, h)])
 //@   loop 0 unroll 32
 
@@ -326,6 +327,7 @@ package tree
 //@   set upsertCalls := old(upsertCalls) + 1
 //@   set leafNow(t) := ite(result1 == nil, upd(old(leafNow(t)), leaf.Index, leaf.Hash), old(leafNow(t)))
 //@   ensures[success-means-stored] result1 == nil ==> stmtFail == old(stmtFail)
+//@   ensures[never-the-syncers-inconsistency-error] plainErr(result1)
 //@   ensures[rht-content-addressed] rhtOK(rhtHas(t.Tree), rhtL(t.Tree), rhtR(t.Tree))
 //@   ensures[root-row-stored] result1 == nil ==> rootHas(t.Tree)[leaf.Index] && rootHash(t.Tree)[leaf.Index] == result0 && rootBlock(t.Tree)[leaf.Index] == blockNum && rootPos(t.Tree)[leaf.Index] == blockPosition
 //@   ensures[new-value-reads-back] result1 == nil ==> desc(rhtL(t.Tree), rhtR(t.Tree), result0, leaf.Index, 0) == leaf.Hash
